@@ -15,6 +15,7 @@ INVARIANT IntGapIsIntNDV
 INVARIANT BooleansAreBits
 INVARIANT KeyZeroIsUnknown
 INVARIANT LengthRule
+INVARIANT MapWritten
 INVARIANT ExportCase
 PROPERTY RequestUnchanged
 CHECK_DEADLOCK FALSE
